@@ -806,9 +806,37 @@ void sim_stall_after_rmw(int nth, int steps) {
   arm_steps = steps;
   arm_fire = 0;
 }
+/* "this kernel thread is preempted right before its next double-word CAS and stays away until *release is set
+ * (or max_steps have gone by)": lets a harness script the classic stale-snapshot interleaving of an ABA */
+static __thread volatile int* hold_reached;
+static __thread volatile int* hold_release;
+static __thread int hold_max_steps;
+void sim_hold_before_dwcas(volatile int* reached, volatile int* release, int max_steps) {
+  hold_reached = reached;
+  hold_release = release;
+  hold_max_steps = max_steps;
+}
 static void sched_point_inner(int kind) {
   account_step(kind);
   tso_maybe_flush();
+  if (hold_release && kind == K_DWCAS && !preempt_off) {
+    volatile int* rel = hold_release;
+    hold_release = NULL;
+    if (hold_reached) *hold_reached = 1;
+    const uint64_t until = g_steps + (uint64_t)hold_max_steps;
+    TR("[%lu] t%d held before its double-word CAS\n", g_steps, me);
+    n_stalled++;
+    while (!*rel && g_steps < until) {
+      T[me].st = ST_SLEEP;
+      T[me].deadline = now_ns + 200 * cost_ns;
+      block_me();
+      T[me].st = ST_RUN;
+    }
+    n_stalled--;
+    idle_since_ns = now_ns;
+    TR("[%lu] t%d released (%s)\n", g_steps, me, *rel ? "flag" : "time-out");
+    return;
+  }
   if (arm_fire && !preempt_off) { /* the read-modify-write has executed: this is the next scheduling point after it */
     arm_fire = 0;
     n_stalled++;
